@@ -135,7 +135,7 @@ def message_frame(ex, sm, tx, node):
                                             "server_rx": f["server_rx"], "id": f["msg_id"]}, tx, node)
 
 
-STOP_EFFECT = "none"    # what stop_f() does (see DESIGN F5)
+STOP_EFFECT = "drop_handle"    # what stop_f() does: the connection drops its handle (F5 repair)
 
 
 class ListenerCallbacks:
